@@ -132,7 +132,13 @@ func (msg *Message) UnmarshalXML(d *xml.Decoder, start xml.StartElement) error {
 			} else {
 				// Decode standard message sub-elements
 				var err error
-				switch tt.Name.Local {
+				local := tt.Name.Local
+				if tt.Name.Space != start.Name.Space {
+					// An element of another namespace that happens to be called body,
+					// subject, ... is an unknown extension, not ours.
+					local = ""
+				}
+				switch local {
 				case "body":
 					err = d.DecodeElement(&msg.Body, &tt)
 				case "thread":
